@@ -83,7 +83,11 @@ class Spec:
     def __init__(self, kind, nvars, nobjs, nconstrs, dirs, rng, elements="int"):
         self.kind, self.nvars, self.nobjs, self.nconstrs, self.dirs = kind, nvars, nobjs, nconstrs, list(dirs)
         self.types = []
+        # "mixed": a Real variable first, then variables of other types (at least one list-encoded)
+        kinds_ = [kind] * nvars if kind != "mixed" else (["real"] + [rng.choice(["binary", "int", "perm", "subset"]) for _ in range(max(1, nvars - 1))])
+        self.nvars = nvars = len(kinds_)
         for i in range(nvars):
+            kind = kinds_[i]
             if kind == "real":
                 lo = rng.choice([0.0, -1.0, -5.0, 2.0, 0.25])
                 self.types.append(("real", lo, lo + rng.choice([1.0, 0.5, 3.0, 10.0])))
@@ -97,6 +101,7 @@ class Spec:
             elif kind == "subset":
                 n = rng.choice([3, 5, 7])
                 self.types.append(("subset", n, rng.randrange(1, n + 1), elements))
+        kind = self.kind
         flat = self.flat_len()
         self.form = "quadratic" if (kind == "real" and rng.random() < 0.6) or (kind != "real" and rng.random() < 0.25) else "linear"
         self.w = [[rng.randrange(-2, 4) for _ in range(flat)] for _ in range(nobjs)]
@@ -345,6 +350,12 @@ def applicable(name, spec):
 def explicit_variator(name, spec, rng):
     """an explicitly supplied operator appropriate for the variable type (None = library default)"""
     k = spec.kind
+    if k == "mixed":
+        # the documented recipe for mixed types: one compound operator made of the per-type operators
+        if name in MUTATION_ONLY:
+            return O.CompoundMutation(O.PM(1, 20.0), O.BitFlip(0.3), O.Swap(0.7), O.Replace(0.7))
+        # (float probabilities for BitFlip: the integer shorthand divides by the number of bits, and there may be no bit string)
+        return O.CompoundOperator(O.SBX(1.0, 15.0), O.HUX(0.9), O.PMX(0.9), O.SSX(0.9), O.PM(1, 20.0), O.BitFlip(0.3), O.Swap(0.5), O.Replace(0.5))
     mut = {"real": lambda: rng.choice([O.PM(1, 20.0), O.PM(0.5, 5.0), O.UM(1), O.UniformMutation(0.5, 0.5)]),
            "int": lambda: O.BitFlip(1), "binary": lambda: O.BitFlip(2),
            "perm": lambda: rng.choice([O.Swap(0.9), O.Insertion(0.9), O.CompoundMutation(O.Swap(0.5), O.Insertion(0.5))]),
@@ -374,7 +385,7 @@ TIMEOUTS = 0
 
 
 def run_traced(name, spec, seed, size, budgets, evaluator="map", explicit=False, extreme=0.0, op_rng=None, log_frequency=None,
-               injected=0, collect_steps=True, extra_kw=None):
+               injected=0, collect_steps=True, extra_kw=None, injected_evaluated=False, budget_as="int"):
     """returns (trace, algorithm, error or None)"""
     tr = Trace()
     prob = TracedProblem(spec, tr)
@@ -398,6 +409,8 @@ def run_traced(name, spec, seed, size, budgets, evaluator="map", explicit=False,
                 for _ in range(injected):
                     s = C.Solution(prob)
                     s.variables[:] = [t.rand() for t in prob.types]
+                    if injected_evaluated:
+                        s.evaluate()            # a user seeding the run with solutions evaluated earlier
                     gen_sols.append(s)
                 kw["generator"] = O.InjectedPopulation(gen_sols)
             alg = ALGOS[name][0](prob, size, kw)
@@ -414,9 +427,18 @@ def run_traced(name, spec, seed, size, budgets, evaluator="map", explicit=False,
                 ex = exposed(a) if collect_steps else {}
                 tr.events.append(("step", a.nfe, {k: [tr.snap(s) for s in v] for k, v in ex.items()},
                                   {k: len(v) for k, v in ex.items()}))
+            conds = {}
             for N in budgets:
                 tr.events.append(("run", N, alg.nfe))
-                alg.run(N, callback=cb)
+                # the budget as an int, as a fresh MaxEvaluations object per call, or as one MaxEvaluations object per
+                # distinct N that is passed again on later calls: all three mean "N more evaluations from now"
+                if budget_as == "object":
+                    arg = C.MaxEvaluations(N)
+                elif budget_as == "reused-object":
+                    arg = conds.setdefault(N, C.MaxEvaluations(N))
+                else:
+                    arg = N
+                alg.run(arg, callback=cb)
                 tr.events.append(("run_end", alg.nfe))
         except Exception as e:      # an observation, judged by the caller
             import traceback
